@@ -80,9 +80,12 @@ def errOf (e : Access.NumErr) : Err := if e = .ok then 0 else 1
 /-- `strconv.Atoi` -/
 def strconv_Atoi (s : Bytes) : Int × Err := ((Access.atoi s).1, errOf (Access.atoi s).2)
 
-/-- `strconv.ParseInt(s, 10, bitSize)` (base 10 is the only base modelled) -/
-def strconv_ParseInt (s : Bytes) (_base : Int) (bitSize : Int) : Int × Err :=
-  ((Access.parseInt (Access.resolveBits bitSize.toNat) s).1, errOf (Access.parseInt (Access.resolveBits bitSize.toNat) s).2)
+/-- `strconv.ParseInt(s, base, bitSize)`: base 10 is the only base modelled — with any other base the call stands for a
+failure, so that a theorem about code that passes another base cannot go through -/
+def strconv_ParseInt (s : Bytes) (base : Int) (bitSize : Int) : Int × Err :=
+  if base = 10 then
+    ((Access.parseInt (Access.resolveBits bitSize.toNat) s).1, errOf (Access.parseInt (Access.resolveBits bitSize.toNat) s).2)
+  else (0, 1)
 
 /-- `strconv.ParseBool` -/
 def strconv_ParseBool (s : Bytes) : Bool × Err := ((Access.parseBool s).1, if (Access.parseBool s).2 then 1 else 0)
